@@ -1,6 +1,7 @@
 import Qryn.Proofs.LogQLPlan
 import Qryn.Proofs.LogQLPlanX
 import Qryn.Proofs.PushdownX
+import Qryn.Proofs.SpecReadingX
 import Qryn.Gen.InternalPlanner
 import Qryn.LogQL.GrammarC07
 /-! # C07 — the SQL generated for a LogQL log query selects exactly the matching lines
@@ -200,6 +201,34 @@ theorem analysis_tables_pinned :
   · intro s; cases s with
     | fl f => cases f <;> rfl
     | ch c => cases c <;> rfl
+
+/-! ### the specification read stage by stage
+`evalLogX` reads the filters before the first label-rewriting stage the way the plan decides them — through the index and the
+series table. On a series table that gives every stream one label set this is the uniform reading `evalInPlace`: the
+selector's entries, each carrying its stream's labels, go through ALL stages in order. -/
+
+/-- **pre_filters_read_in_place.** If every series row of a stream carries the same label set `L fp` and every stream the
+    selector picks has an admissible row, then the entries the specification admits for the filters `pre` placed before the
+    first label-rewriting stage are exactly the selector's entries filtered in place by `pre`, each filter judging the
+    entry's own labels and line. (Spec-level counterpart of `pushdown_sound`.) -/
+theorem pre_filters_read_in_place (o : Oracles) (c : Ctx) (d : LokiDb) (ms : List Matcher) (L : Int → Labels)
+    (H : SeriesConsistent o c d ms L) (pre : List Stage) :
+    entriesAtJoin o c d ⟨ms, pre⟩ = stagesX o (pre.map .fl) (entriesAtJoin o c d ⟨ms, []⟩) :=
+  LogQL.pre_filters_read_in_place o c d ms L H pre
+
+/-- **plan_correct_in_place.** For a pipeline with at least one label-rewriting stage, on such a series table: the statement
+    planned for ClickHouse returns what one gets by passing the selector's entries through every stage of the pipeline in
+    order — no split of the pipeline appears in this reading. -/
+theorem plan_correct_in_place (o : Oracles) (c : Ctx) (hn : c.namesOk) (d : LokiDb) (q : LogQueryX) (fin : Bool)
+    (hm : q.matchers.length ≤ 63) (L : Int → Labels) (H : SeriesConsistent o c d q.matchers L)
+    (hch : changersOf q.stages ≠ []) :
+    evalSelX o (d.toDb c) (planLogX c fin q) = evalInPlace o c fin d q := by
+  rw [planLogX_correct o c hn d q fin hm, evalLogX_reads_in_place o c fin d q L H hch]
+
+/-- the hypothesis is satisfiable (a series table with one row; no index row, so the selector picks nothing) -/
+example (o : Oracles) (c : Ctx) (ms : List Matcher) :
+    SeriesConsistent o c ⟨[], [⟨[], 1, [123, 125], 1⟩], []⟩ ms (fun _ => o.jsonLabels [123, 125]) :=
+  ⟨by intro t ht; simp at ht; subst ht; rfl, by intro fp h; simp [streamSelected] at h⟩
 
 /-- **grammar_classified.** Every production of the LogQL log-query grammar as it is in logql_parser/model_v2.go now
     (`Gen.C07Grammar`, regenerated from the participle tags) is classified — modelled, handed over, or outside with the
